@@ -9,6 +9,19 @@ import json, os, subprocess, sys, time
 
 ROOT = os.path.dirname(os.path.abspath(__file__))
 C18 = os.path.join(ROOT, "c18")
+REPO = os.environ.get("VERIF_REPO", "/repo").rstrip("/") or "/repo"
+if REPO != "/repo":
+    # scratch copy of the repository (seeded changes): a generated manifest with its own target dirs
+    import hashlib, shutil
+    _alt = os.path.join(C18, "target", "alt", hashlib.md5(REPO.encode()).hexdigest()[:10])
+    os.makedirs(os.path.join(_alt, ".cargo"), exist_ok=True)
+    _m = open(os.path.join(C18, "Cargo.toml")).read().replace('path = "/repo"', f'path = "{REPO}"')
+    open(os.path.join(_alt, "Cargo.toml"), "w").write(_m)
+    for _f in ("Cargo.lock", ".cargo/config.toml"):
+        shutil.copyfile(os.path.join(C18, _f), os.path.join(_alt, _f))
+    if not os.path.islink(os.path.join(_alt, "src")):
+        os.symlink(os.path.join(C18, "src"), os.path.join(_alt, "src"))
+    C18 = _alt
 ENV = dict(os.environ, CARGO_NET_OFFLINE="true")
 MIRIFLAGS = ("-Zmiri-disable-stacked-borrows -Zmiri-permissive-provenance -Zmiri-ignore-leaks "
              "-Zmiri-deterministic-floats")
